@@ -290,7 +290,9 @@ def results(ctx: Any, thorough: bool) -> dict[str, Any]:
     res = {"records": recs, "seconds": round(time.time() - t0, 1), "workers": n, "from_cache": False}
     try:
         cache_dir.mkdir(parents=True, exist_ok=True)
-        cf.write_text(json.dumps(res))
+        tmp = cf.with_suffix(f".{os.getpid()}.tmp")
+        tmp.write_text(json.dumps(res))
+        os.replace(tmp, cf)  # atomic: a check running in parallel never reads a half-written file
         # keep the newest few results (scratch copies analysed in parallel by the self-test each have their own digest)
         olds = sorted(cache_dir.glob("roundtrip-*.json"), key=lambda q: q.stat().st_mtime, reverse=True)
         for old in olds[16:]:
